@@ -123,6 +123,19 @@ def main():
     try:
         patch = os.path.join(dst, "patch.diff")
         rc, out = sh(["git", "apply", patch], wt)
+        if rc != 0:
+            # /repo moved on (fix: commits): fall back to a 3-way merge and keep the rebased patch
+            rc3, out3 = sh(["git", "apply", "--3way", patch], wt)
+            unmerged = subprocess.run(["git", "diff", "--name-only", "--diff-filter=U"], cwd=wt, stdout=subprocess.PIPE, text=True).stdout.strip()
+            if rc3 == 0 and not unmerged:
+                rebased = subprocess.run(["git", "diff", "HEAD"], cwd=wt, stdout=subprocess.PIPE, text=True).stdout
+                subprocess.run(["git", "reset", "-q"], cwd=wt)
+                shutil.copy(patch, patch + ".orig")
+                open(patch, "w").write(rebased)
+                meta["rebased_by_lead"] = "patch.diff re-generated by `git apply --3way` on the current /repo HEAD (the original, made before later fix: commits, is patch.diff.orig)"
+                rc, out = 0, out3
+            else:
+                subprocess.run(["git", "reset", "-q", "--hard"], cwd=wt)
         step("git apply patch.diff", rc == 0, out)
         mods = modules_of(open(patch).read(), wt)
         is_go = bool(mods)
